@@ -67,7 +67,7 @@ fn replay_one(steps: &[Value], gran: i64) -> Result<Vec<Value>, String> {
     for st in steps {
         let a = st["a"].as_str().ok_or("step without a")?;
         let t = st["t"].as_i64().ok_or("step without t")?;
-        let mut o = json!({"seen": -1, "saved": false});
+        let mut o = json!({"seen": -1, "saved": false, "touched": false});
         match a {
             "Tick" => {}
             "BeginCheckout" => {
@@ -94,12 +94,18 @@ fn replay_one(steps: &[Value], gran: i64) -> Result<Vec<Value>, String> {
             }
             "SaveState" => {
                 let before = inode(&state_file)?;
+                let mtime_before = mtime_ms(&state_file)?;
                 let l = locked.take().ok_or("SaveState without command")?;
                 l.finish(op_id.clone()).block_on().map_err(|e| format!("finish: {e}"))?;
                 // TreeState::save writes a temp file and renames it over
                 // tree_state: the file was rewritten iff its inode changed
                 let really_saved = inode(&state_file)? != before;
                 o["saved"] = json!(really_saved);
+                // the state file was not rewritten but its mtime moved: somebody touched it.
+                // It is NOT forced back: a coarse file system stamps the file only when it is
+                // written, so whatever jj left on a non-saving finish() is what the next
+                // process will read as own_mtime.
+                o["touched"] = json!(!really_saved && mtime_ms(&state_file)? != mtime_before);
                 if really_saved {
                     set_mtime_ms(&state_file, base + t * gran)?;
                 }
